@@ -1163,6 +1163,19 @@ def r9_end_to_end_stores(ctx):
             if not have_cell and t is not None and (t.__dict__.get("unitcell_lengths") is not None or t.__dict__.get("unitcell_angles") is not None):
                 why.append("a cell is loaded from a file saved without one")
             ctx.decide(not why, "C01-R9", saver, E.TRAJ, q, desc, "", "; ".join(why[:2]))
+        if key == "h5":
+            # the topology travels with the file, whichever mode created it: save_hdf5(mode="a") on a path that does not exist yet writes a file like mode="w"
+            for mode in ("w", "a"):
+                desc = "save_hdf5(mode=%r) to a new file, then load: the topology saved is the topology loaded" % mode
+                try:
+                    world = W.World(NF, cell=True, ortho=False, time=True)
+                    t = E.save_and_load_store(ctx, key, world, have_cell=True, save_kwargs={"mode": mode})
+                    got = t.__dict__.get("topology") if t is not None else None
+                    ctx.decide(got is world.top, "C01-R9", saver, E.TRAJ, q, desc, "", "the trajectory loaded has the topology %s" % (getattr(got, "tag", got),))
+                except Raised as e:
+                    ctx.violated("C01-R9", saver, E.TRAJ, q, desc, "refused: %s" % (e.exc or e))
+                except PUnsupported as e:
+                    ctx.undecided("C01-R9", saver, E.TRAJ, q, desc, "not evaluable: %s" % e)
 
 
 def r9_end_to_end_xdr(ctx):
